@@ -654,9 +654,10 @@ end GoDcp.Obs.C03
 namespace GoDcp.C03
 open GoDcp GoDcp.Obs.C03
 
-/-- ops that keep the stream object and its observers: everything but open / close / crash -/
+/-- ops that keep the stream object and its observers: everything but open / close / crash and
+    a rebalance (which replaces every observer by a new one; a transient `.reopen` keeps them) -/
 def sessionOp : Op → Bool
-  | .open | .close | .crash => false
+  | .open | .close | .crash | .rebalance _ _ => false
   | _ => true
 
 /-- the server events of vBucket `v` in an op list, in order -/
@@ -736,6 +737,14 @@ theorem step_no_deliver (s : St) (op : Op) (h : ∀ vb e, op ≠ .ev vb e) :
   | svStore k res => simp only [step, svStore]; (repeat' split) <;> simp [isDeliver]
   | svUnmark k => simp only [step, svUnmark]; (repeat' split) <;> simp [isDeliver]
   | scrape => simp only [step, scrape]; (repeat' split) <;> simp [isDeliver]
+  | rebalance lo hi =>
+    intro x hx
+    simp only [step] at hx
+    rcases mem_rebalanceSession_out hx with ⟨_, h⟩ | ⟨_, h⟩ | h | ⟨_, _, _, _, _, _, _, _, _, _, h, _⟩ <;> subst h <;> rfl
+  | reopen vb =>
+    intro x hx
+    simp only [step] at hx
+    rcases mem_reopenStream_out hx with ⟨_, h⟩ | ⟨_, _, _, _, _, h, _⟩ <;> subst h <;> rfl
   | _ => simp only [step, crash]; (repeat' split) <;> simp [isDeliver]
 
 /-- the observers after a server event: only that vBucket's observer moves -/
@@ -842,11 +851,23 @@ theorem obsReady_step_other (s : St) (op : Op) (v : Vb) (snap : Option (Nat × N
   | «open» => simp [sessionOp] at hop
   | close => simp [sessionOp] at hop
   | crash => simp [sessionOp] at hop
+  | rebalance lo hi => simp [sessionOp] at hop
+  | reopen vb =>
+    -- the observer object stays; only its branch id may be set again
+    simp only [step]
+    rcases reopenStream_cases s vb with ⟨_, e⟩ | ⟨_, ob, _, _, hob, e⟩ <;> rw [e]
+    · exact ⟨o, ho, hcl, hcn, hsn⟩
+    · by_cases hv : v = vb
+      · subst hv
+        rw [ho] at hob; cases hob
+        exact ⟨o.setUuid ((s.flog.get? v).getD 0), by simp [AMap.get?_set_same], hcl, hcn, hsn⟩
+      · exact ⟨o, by simp [AMap.get?_set_other _ _ _ _ hv, ho], hcl, hcn, hsn⟩
   | _ => exact ⟨o, by rw [step_observers s (by rfl)]; exact ho, hcl, hcn, hsn⟩
 
 /-- **deliver_eq_filter**: run any interleaving of server events (of any number
     of vBuckets), acknowledgements, saves and saver micro-steps, persistence
-    reports, offset / metric reads – but no open / close / crash – from a state in
+    reports, offset / metric reads, transient reopens, failovers – but no open / close / crash
+    and no rebalance (each of these replaces or drops the observers) – from a state in
     which the observer of `v` is open and outside catch-up, with rollback
     mitigation off.  If `v`'s own server events are well-formed (each document /
     system event inside the marker current at that point), the consumer receives
@@ -884,9 +905,9 @@ theorem deliver_eq_filter (s : St) (ops : List Op) (v : Vb) (snap : Option (Nat 
         refine ⟨(Obs.step s.cfg.obs o e).1, ?_, ?_, step_catchNeed _ _ _ hcn, step_snap _ _ _ hnb⟩
         · simp only [step, evStep_observers, ho, AMap.get?_set_same]
         · rw [Obs.step_closed]; exact hcl
-      have := ih (step s (.ev v e)).1 (snapAfter o.snap e) hr (by rw [step_cfg]; exact hrm) hready'
+      have := ih (step s (.ev v e)).1 (snapAfter o.snap e) hr (by rw [step_cfg_obs]; exact hrm) hready'
         (WF_tail _ _ _ hwf)
-      simp only [traceDelivOn, step_cfg] at this
+      simp only [traceDelivOn, step_cfg_obs] at this
       rw [this, hhead]
       conv => rhs; rw [docsOf_cons, List.filterMap_append]
     · have hne : ∀ e, op ≠ .ev v e := fun e h => hev ⟨e, h⟩
@@ -910,9 +931,9 @@ theorem deliver_eq_filter (s : St) (ops : List Op) (v : Vb) (snap : Option (Nat 
             | _ => rfl
         | _ => exact delivOn_of_none (step_no_deliver s _ (by intro vb e h; cases h))
       rw [hevs] at hwf ⊢
-      have := ih (step s op).1 snap hr (by rw [step_cfg]; exact hrm)
+      have := ih (step s op).1 snap hr (by rw [step_cfg_obs]; exact hrm)
         (obsReady_step_other s op v snap hop hne hready) hwf
-      simp only [traceDelivOn, step_cfg] at this
+      simp only [traceDelivOn, step_cfg_obs] at this
       rw [this, hhead, List.nil_append]
 
 /-! ### faithfulness and context indices at the session level -/
@@ -1076,7 +1097,16 @@ theorem own_step (v : Vb) (s s' : St) (op : Op) (hown : ownOp v op = true) (h : 
         delivFullOn_of_none (step_no_deliver s' _ (by intro vb e h; cases h))]
   | _ => simp [ownOp] at hown
 
+/-- a transient reopen of `v` itself: when accepted it sets the branch id of `v`'s observer to the
+    current head of the failover log – which depends on more than `v`'s observer (the open flag, the
+    presence of a position for `v`, the failover log). The independence theorems below exclude it
+    (`deliveries_own_reopen_refuted` shows that they have to). -/
+def reopensVb (v : Vb) : Op → Bool
+  | .reopen vb => vb == v
+  | _ => false
+
 theorem other_step (v : Vb) (s s' : St) (op : Op) (hses : sessionOp op = true) (hown : ownOp v op = false)
+    (hre : reopensVb v op = false)
     (h : SameFor v s s') : SameFor v (step s op).1 s' ∧ delivFullOn v (step s op).2 = [] := by
   obtain ⟨hc, hn, ho⟩ := h
   cases op with
@@ -1105,72 +1135,106 @@ theorem other_step (v : Vb) (s s' : St) (op : Op) (hses : sessionOp op = true) (
   | «open» => simp [sessionOp] at hses
   | close => simp [sessionOp] at hses
   | crash => simp [sessionOp] at hses
+  | rebalance lo hi => simp [sessionOp] at hses
+  | reopen vb =>
+    have hv : vb ≠ v := by simpa [reopensVb] using hre
+    have hv' : v ≠ vb := fun e => hv e.symm
+    refine ⟨⟨by simp [hc], by rw [step_obsNil s (by rfl)]; exact hn, ?_⟩,
+      delivFullOn_of_none (step_no_deliver s _ (by intro vb e h; cases h))⟩
+    simp only [step]
+    rcases reopenStream_cases s vb with ⟨_, e⟩ | ⟨_, _, _, _, _, e⟩ <;> rw [e]
+    · exact ho
+    · simp only [AMap.get?_set_other _ _ _ _ hv']; exact ho
   | _ =>
     exact ⟨⟨by simp [hc], by rw [step_obsNil s (by rfl)]; exact hn, by rw [step_observers s (by rfl)]; exact ho⟩,
       delivFullOn_of_none (step_no_deliver s _ (by intro vb e h; cases h))⟩
 
 /-- **deliveries of `v` depend only on `v`'s own ops**: whatever else happens in
-    the session (events of other vBuckets, acknowledgements, saves, …), the
-    consumer's view of `v` (event, offset, collection name, event time) is the one
+    the session (events of other vBuckets, acknowledgements, saves, failovers, reopens of other
+    vBuckets, …), the consumer's view of `v` (event, offset, collection name, event time) is the one
     obtained by running `v`'s server events and persistence reports alone, from
-    any state that agrees on `v`'s observer. -/
+    any state that agrees on `v`'s observer.
+    Extra hypothesis since `.reopen` exists: no transient reopen of `v` itself among the ops
+    (`hre`) – an accepted reopen re-reads the branch id, which is part of the offsets the consumer
+    sees, from state outside `v`'s observer. -/
 theorem deliveries_own (v : Vb) (s s' : St) (ops : List Op) (hses : ∀ op ∈ ops, sessionOp op = true)
+    (hre : ∀ op ∈ ops, reopensVb v op = false)
     (h : SameFor v s s') :
     traceDelivFullOn v (runTrace s ops).2 = traceDelivFullOn v (runTrace s' (ops.filter (ownOp v))).2 := by
   induction ops generalizing s s' with
   | nil => rfl
   | cons op r ih =>
     have hr : ∀ op ∈ r, sessionOp op = true := fun o ho => hses o (List.mem_cons_of_mem _ ho)
+    have hre' : ∀ op ∈ r, reopensVb v op = false := fun o ho => hre o (List.mem_cons_of_mem _ ho)
     cases hown : ownOp v op with
     | true =>
       obtain ⟨h1, h2⟩ := own_step v s s' op hown h
       simp only [List.filter_cons, hown, if_true, runTrace_cons, traceDelivFullOn, List.flatMap_cons, h2]
       congr 1
-      exact ih _ _ hr h1
+      exact ih _ _ hr hre' h1
     | false =>
-      obtain ⟨h1, h2⟩ := other_step v s s' op (hses op List.mem_cons_self) hown h
+      obtain ⟨h1, h2⟩ := other_step v s s' op (hses op List.mem_cons_self) hown (hre op List.mem_cons_self) h
       simp only [List.filter_cons, hown, Bool.false_eq_true, if_false, runTrace_cons, traceDelivFullOn,
         List.flatMap_cons, h2, List.nil_append]
-      exact ih _ _ hr h1
+      exact ih _ _ hr hre' h1
 
-/-- ops on other vBuckets (their server events and persistence reports) -/
+/-- ops on other vBuckets (their server events, persistence reports and transient reopens) -/
 def onOther (v : Vb) : Op → Bool
   | .ev vb _ => vb != v
   | .persist vb _ => vb != v
+  | .reopen vb => vb != v
   | _ => false
 
 /-- **vbuckets_independent**: delete every op on other vBuckets – the consumer's
-    view of `v` is the same. -/
-theorem vbuckets_independent (v : Vb) (s : St) (ops : List Op) (hses : ∀ op ∈ ops, sessionOp op = true) :
+    view of `v` is the same. (Extra hypothesis `hre`: no transient reopen of `v` itself, see
+    `deliveries_own`.) -/
+theorem vbuckets_independent (v : Vb) (s : St) (ops : List Op) (hses : ∀ op ∈ ops, sessionOp op = true)
+    (hre : ∀ op ∈ ops, reopensVb v op = false) :
     traceDelivFullOn v (runTrace s ops).2 =
       traceDelivFullOn v (runTrace s (ops.filter fun op => !onOther v op)).2 := by
   have hses' : ∀ op ∈ ops.filter (fun op => !onOther v op), sessionOp op = true :=
     fun op h => hses op (List.mem_filter.mp h).1
+  have hre' : ∀ op ∈ ops.filter (fun op => !onOther v op), reopensVb v op = false :=
+    fun op h => hre op (List.mem_filter.mp h).1
   have hf : (ops.filter fun op => !onOther v op).filter (ownOp v) = ops.filter (ownOp v) := by
     rw [List.filter_filter]
     apply List.filter_congr
     intro op _
     cases op <;> simp [ownOp, onOther]
-  rw [deliveries_own v s s ops hses ⟨rfl, rfl, rfl⟩, deliveries_own v s s _ hses' ⟨rfl, rfl, rfl⟩, hf]
+  rw [deliveries_own v s s ops hses hre ⟨rfl, rfl, rfl⟩, deliveries_own v s s _ hses' hre' ⟨rfl, rfl, rfl⟩, hf]
 
-/-- two interleavings with the same events of `v` give the same view of `v` -/
+/-- two interleavings with the same events of `v` (and no transient reopen of `v`) give the same
+    view of `v` -/
 theorem vbuckets_independent' (v : Vb) (s : St) (ops₁ ops₂ : List Op)
     (h₁ : ∀ op ∈ ops₁, sessionOp op = true) (h₂ : ∀ op ∈ ops₂, sessionOp op = true)
+    (r₁ : ∀ op ∈ ops₁, reopensVb v op = false) (r₂ : ∀ op ∈ ops₂, reopensVb v op = false)
     (hsame : ops₁.filter (ownOp v) = ops₂.filter (ownOp v)) :
     traceDelivFullOn v (runTrace s ops₁).2 = traceDelivFullOn v (runTrace s ops₂).2 := by
-  rw [deliveries_own v s s ops₁ h₁ ⟨rfl, rfl, rfl⟩, deliveries_own v s s ops₂ h₂ ⟨rfl, rfl, rfl⟩, hsame]
+  rw [deliveries_own v s s ops₁ h₁ r₁ ⟨rfl, rfl, rfl⟩, deliveries_own v s s ops₂ h₂ r₂ ⟨rfl, rfl, rfl⟩, hsame]
+
+/-- **the extra hypothesis of `deliveries_own` is needed**: after a failover of vBucket 0
+    (`.setFlog 0 99` while streaming) a transient reopen of vBucket 0 makes the following delivery
+    carry branch id 99; the own ops of vBucket 0 alone (the reopen is not one of them) deliver the
+    same event with the branch id the open was answered with (0). -/
+theorem deliveries_own_reopen_refuted :
+    ∃ (s : St) (ops : List Op), (∀ op ∈ ops, sessionOp op = true) ∧
+      traceDelivFullOn 0 (runTrace s ops).2 ≠ traceDelivFullOn 0 (runTrace s (ops.filter (ownOp 0))).2 :=
+  ⟨run { cfg := { lo := 0, hi := 0 } } [.open, .setFlog 0 99, .ev 0 (.marker 1 5)],
+   [.reopen 0, .ev 0 (.doc ⟨.mu, 1, 0, "61", 0, "a"⟩)], by decide, by decide⟩
 
 /-- non-vacuity of `deliver_eq_filter` and `vbuckets_independent`: two vBuckets
-    interleaved with an acknowledgement, a save and a reserved-key document -/
+    interleaved with an acknowledgement, a save, a failover and a transient reopen of the other
+    vBucket and a reserved-key document -/
 example :
     let s0 : St := { cfg := { lo := 0, hi := 1 } }
     let s : St := (step s0 .open).1
     let ops : List Op := [.ev 0 (.marker 1 5), .ev 1 (.marker 1 5),
       .ev 0 (.doc ⟨.mu, 1, 0, "61", 0, "a"⟩), .ev 1 (.doc ⟨.mu, 1, 0, "62", 0, "b"⟩), .ack 0, .save .ok,
+      .setFlog 1 7, .reopen 1,
       .ev 0 (.doc ⟨.mu, 2, 0, "5f74786e3a61", 0, ""⟩), .ev 0 (.doc ⟨.de, 3, 0, "63", 0, ""⟩)]
     ObsReady 0 none s ∧ WF none (evsOn 0 ops) = true ∧
-    (∀ op ∈ ops, sessionOp op = true) ∧
+    (∀ op ∈ ops, sessionOp op = true) ∧ (∀ op ∈ ops, reopensVb 0 op = false) ∧
     evsOn 0 (ops.filter fun op => !onOther 0 op) = evsOn 0 ops := by
-  refine ⟨⟨{ latest := maxU64 }, by decide, rfl, rfl, rfl⟩, by decide, by decide, by decide⟩
+  refine ⟨⟨{ latest := maxU64 }, by decide, rfl, rfl, rfl⟩, by decide, by decide, by decide, by decide⟩
 
 end GoDcp.C03
